@@ -1105,9 +1105,10 @@ class _Identifiers:
     def __init__(self, compiler, node=None, parent=None, nested=False):
         if parent is not None:
             # if we are the branch created in write_namespaces(),
-            # we don't share any context from the main body().
+            # we don't share any context from the main body(): the parent
+            # holds the module-level names only, which are shared
             if isinstance(node, parsetree.NamespaceTag):
-                self.declared = set()
+                self.declared = set(parent.declared)
                 self.topleveldefs = util.SetLikeDict()
             else:
                 # things that have already been declared
